@@ -35,6 +35,9 @@ def gen_sequences(ctx):
         k = rng.randrange(1, 9)
         if style < 0.2:       # character password
             seq = [(rng.choice(["a", "b", "é", "€", "😀", "Z", "9"]), 1) for _ in range(k)]
+        elif style < 0.27:    # every atom from one or two values (e.g. all atoms a base letter plus a combining mark, all astral, all blank)
+            vals = rng.sample(["e\u0301", "\u0301", "𝓍", "😀", "\u200d", " ", "ǆ", "ıa", "é", "a\u0301", "\ufffd", "ab"], rng.choice([1, 1, 2]))
+            seq = [(rng.choice(vals), 1) for _ in range(k)]
         elif style < 0.4:     # all atoms
             seq = [(rng.choice(WORDS), 1) for _ in range(k)]
         elif style < 0.65:    # alternating
